@@ -708,7 +708,13 @@ def satisfiable(conds: list, *, logic: Optional[str] = "QF_NRA", timeout_ms: int
     return r, (s.model() if r == "sat" else None)
 
 
-def model_value(model: z3.ModelRef, var: z3.ArithRef) -> float:
+def model_value(model: Optional[z3.ModelRef], var: z3.ArithRef) -> float:
+    if model is None:
+        # no model: the code under test raised on symbolic input and the caller replays at a generic point - a deterministic,
+        # non-integer value per variable name (distinct names get distinct values)
+        import zlib
+
+        return 0.8125 + (zlib.crc32(str(var).encode()) % 89) * 0.375
     v = model.eval(var, model_completion=True)
     if z3.is_rational_value(v):
         return float(Fraction(v.numerator_as_long(), v.denominator_as_long()))
